@@ -5,6 +5,7 @@ import (
 	"flag"
 	"fmt"
 	"math/rand"
+	"mime"
 	"os"
 	"path/filepath"
 	"strings"
@@ -144,6 +145,46 @@ func concstressMain(args []string) int {
 		}
 		close(start)
 		wg.Wait()
+		// results are values the caller may share: the read-only accessors of ONE result, first used
+		// concurrently, must all see the same strings (and must not race)
+		for k := 0; k < 6; k++ {
+			label := fmt.Sprintf("x-shared-%d-%d", round, k)
+			docs := [][]byte{[]byte(`<?xml version="1.0" encoding="` + label + `"?><a/>`), []byte("caf\xe9 shared latin text " + label), data[(round*7+k)%len(data)]}
+			res := mimetype.Detect(docs[k%3])
+			want := ""
+			var once sync.Once
+			var wg2 sync.WaitGroup
+			startS := make(chan struct{})
+			var wmu sync.Mutex
+			for g := 0; g < *gor; g++ {
+				wg2.Add(1)
+				go func() {
+					defer wg2.Done()
+					<-startS
+					s := res.String()
+					once.Do(func() { wmu.Lock(); want = s; wmu.Unlock() })
+					ok := res.Is(s)
+					ext := res.Extension()
+					n := 0
+					for p := res; p != nil && n < 64; p = p.Parent() {
+						n++
+						_ = p.String()
+					}
+					wmu.Lock()
+					w := want
+					wmu.Unlock()
+					if s == "" || (w != "" && s != w) || !ok || n < 1 {
+						bad("shared-result-accessors", label, fmt.Sprintf("String()=%q (another goroutine saw %q) Is(own string)=%v extension=%q chain=%d", s, w, ok, ext, n))
+					}
+					atomic.AddInt64(&calls, 1)
+				}()
+			}
+			close(startS)
+			wg2.Wait()
+			if _, _, err := mime.ParseMediaType(res.String()); err != nil {
+				bad("shared-result-string", label, fmt.Sprintf("String()=%q after concurrent first use: %v", res.String(), err))
+			}
+		}
 	}
 	rep.Evaluations = calls
 	rep.Nontrivial = fresh
